@@ -31,7 +31,8 @@ def ssLoop {σ : Type} (copies : Bool) (step : σ → σ) (small : σ → σ →
     if small buf' y1v then .steady (i + 1) buf'          -- norm(diff) < tolerance
     else ssLoop copies step small fuel (i + 1) (if copies then .val buf' else .buffer) buf'
 
-/-- `integrate_to_steady_state`: `reset()`, `y1 = deepcopy(y0)`, loop -/
+/-- the search itself: `y1 = deepcopy(self.y0)` + loop, from the state `y0` the integrator currently holds
+(since the repair of F-C04-2 that is the CURRENT state, not the initial conditions) -/
 def ssRun {σ : Type} (copies : Bool) (step : σ → σ) (small : σ → σ → Bool) (maxSteps : Nat) (y0 : σ) :
     Outcome σ :=
   ssLoop copies step small maxSteps 0 (.val y0) y0
@@ -40,6 +41,36 @@ def ssRun {σ : Type} (copies : Bool) (step : σ → σ) (small : σ → σ → 
 def iter {σ : Type} (f : σ → σ) : Nat → σ → σ
   | 0, x => x
   | n + 1, x => iter f n (f x)
+
+/-! ### the integrator object around the loop (`Scipy.t0`, `Scipy.y0`, `Scipy._y0_orig`) -/
+
+structure Integ (σ : Type) where
+  t0 : Rat
+  y0 : σ
+  y0orig : σ
+deriving Repr
+
+/-- `Scipy.reset` -/
+def Integ.reset {σ : Type} (g : Integ σ) : Integ σ := { g with t0 := 0, y0 := g.y0orig }
+
+/-- what `integrate_to_steady_state` returns: `Result(TimeCourse(time=[t], values=[y2]))` or `Result(NoSteadyState())` -/
+inductive SSResult (σ : Type) where
+  | timeCourse (t : Rat) (y : σ)
+  | noSteadyState
+deriving Repr
+
+/-- `Scipy.integrate_to_steady_state` as a method: the result and the integrator afterwards.
+`continues = true` (current tree): the `ode` object starts at (`self.t0`, `self.y0`), `t = self.t0 + step_size`, and the
+success branch advances `self.t0 = t; self.y0 = y2.copy()`.  `continues = false` (before the repair of F-C04-2):
+`self.reset()` first and no advance.  A failed search leaves the integrator where it was. -/
+def integrateToSteadyState {σ : Type} (continues copies : Bool) (step : σ → σ) (small : σ → σ → Bool)
+    (maxSteps stepSize : Nat) (g : Integ σ) : SSResult σ × Integ σ :=
+  let g0 := if continues then g else g.reset
+  match ssRun copies step small maxSteps g0.y0 with
+  | .steady n y =>
+    let t := g0.t0 + (n : Rat) * (stepSize : Rat)          -- `t = self.t0 + step_size`, then `t += step_size` per round
+    (.timeCourse t y, if continues then { g0 with t0 := t, y0 := y } else g0)
+  | .noSteadyState => (.noSteadyState, g0)
 
 /-! ### error plumbing -/
 
@@ -52,25 +83,33 @@ deriving Repr, DecidableEq
 /-- the part of `Simulator` that the steady-state path touches -/
 structure Sim (σ : Type) where
   errors : List SimErr
-  variables : Option (List (Nat × σ))     -- (time / 1, state) rows; time = n * step_size
+  variables : Option (List (Rat × σ))     -- (absolute time, state) rows
+  timeShift : Option Rat                  -- `_time_shift` (set by `update_variables` after a simulation)
+  integ : Integ σ
 deriving Repr
 
-def Sim.fresh {σ : Type} : Sim σ := ⟨[], none⟩
+/-- `Simulator(model, y0)` -/
+def Sim.fresh {σ : Type} (y0 : σ) : Sim σ := ⟨[], none, none, ⟨0, y0, y0⟩⟩
 
 /-- `_handle_simulation_results(result, skipfirst=False)` -/
-def handleResult {σ : Type} (stepSize : Nat) (s : Sim σ) : Outcome σ → Sim σ
-  | .steady n y =>
+def handleResult {σ : Type} (s : Sim σ) : SSResult σ → Sim σ
+  | .timeCourse t y =>
+    let t := match s.timeShift with | some sh => t + sh | none => t      -- `time += self._time_shift`
     match s.variables with
-    | none => { s with variables := some [(n * stepSize, y)] }
-    | some rows => { s with variables := some (rows ++ [(n * stepSize, y)]) }
+    | none => { s with variables := some [(t, y)] }
+    | some rows => { s with variables := some (rows ++ [(t, y)]) }
   | .noSteadyState => { s with errors := s.errors ++ [.noSteadyState] }
 
 /-- `simulate_to_steady_state` -/
-def simulateToSteadyState {σ : Type} (stepSize : Nat) (s : Sim σ) (integ : Unit → Outcome σ) : Sim σ :=
-  if s.errors.length > 0 then s else handleResult stepSize s (integ ())
+def simulateToSteadyState {σ : Type} (continues copies : Bool) (step : σ → σ) (small : σ → σ → Bool)
+    (maxSteps stepSize : Nat) (s : Sim σ) : Sim σ :=
+  if s.errors.length > 0 then s
+  else
+    let (r, g) := integrateToSteadyState continues copies step small maxSteps stepSize s.integ
+    handleResult { s with integ := g } r
 
 /-- `get_result`: the first error, else the collected rows -/
-def getResult {σ : Type} (s : Sim σ) : Except SimErr (List (Nat × σ)) :=
+def getResult {σ : Type} (s : Sim σ) : Except SimErr (List (Rat × σ)) :=
   match s.errors with
   | e :: _ => .error e
   | [] =>
@@ -79,7 +118,7 @@ def getResult {σ : Type} (s : Sim σ) : Except SimErr (List (Nat × σ)) :=
     | some rows => .ok rows
 
 /-- a row of `scan.steady_state(...).variables`: `none` = the NaN row of `Simulation.default` -/
-def workerRow {σ : Type} (r : Except SimErr (List (Nat × σ))) : Option σ :=
+def workerRow {σ : Type} (r : Except SimErr (List (Rat × σ))) : Option σ :=
   match r with
   | .ok rows => rows.getLast?.map (·.2)
   | .error _ => none
